@@ -10,22 +10,30 @@ import time as _time_mod
 
 _real_monotonic = _time_mod.monotonic
 
-spec = json.loads(sys.argv[1])
+spec = None
 
-if spec['engine'] == 'sim':
-    from vf import detsched
 
-    detsched.install()
-    from vf import simloop
+def _bootstrap():
+    global spec
+    spec = json.loads(sys.argv[1])
+    if spec['engine'] == 'sim':
+        from vf import detsched
 
-    simloop.install()
-    detsched.start_watchdog(float(os.environ.get('VERIF_WATCHDOG_S', '180')), label=f"{spec['prop']}/{spec['family']}")
-    import threading
-    import logging
+        detsched.install()
+        from vf import simloop
 
-    threading.excepthook = lambda args: None
-    sys.unraisablehook = lambda args: None
-    logging.disable(logging.CRITICAL)
+        simloop.install()
+        detsched.start_watchdog(float(os.environ.get('VERIF_WATCHDOG_S', '180')), label=f"{spec['prop']}/{spec['family']}")
+        import threading
+        import logging
+
+        threading.excepthook = lambda args: None
+        sys.unraisablehook = lambda args: None
+        logging.disable(logging.CRITICAL)
+
+
+if __name__ == '__main__':
+    _bootstrap()
 
 import importlib
 import traceback
@@ -199,13 +207,14 @@ def main():
         json.dump(out, f, default=repr)
 
 
-try:
-    main()
-except BaseException as e:
-    with open(spec['out'], 'w') as f:
-        json.dump({'prop': spec['prop'], 'family': spec['family'], 'fatal': f'{type(e).__name__}: {e}\n{traceback.format_exc()[-4000:]}'}, f)
+if __name__ == '__main__':
+    try:
+        main()
+    except BaseException as e:
+        with open(spec['out'], 'w') as f:
+            json.dump({'prop': spec['prop'], 'family': spec['family'], 'fatal': f'{type(e).__name__}: {e}\n{traceback.format_exc()[-4000:]}'}, f)
+        sys.stdout.flush()
+        os._exit(2)
     sys.stdout.flush()
-    os._exit(2)
-sys.stdout.flush()
-sys.stderr.flush()
-os._exit(0)
+    sys.stderr.flush()
+    os._exit(0)
